@@ -116,7 +116,18 @@ def build_world(spec, init_seed):
     for m in spec["models"]:
         act = {"tanh": torch.nn.Tanh(), "sin": tp.models.Sinus() if hasattr(tp.models, "Sinus") else torch.nn.Tanh(),
                "adaptive": tp.models.AdaptiveActivationFunction(torch.nn.Tanh()) if hasattr(tp.models, "AdaptiveActivationFunction") else torch.nn.Tanh()}[m.get("act", "tanh")]
-        w.models.append(tp.models.FCN(X, U, hidden=tuple(m["hidden"]), activations=act))
+        mc = m.get("cls", "fcn")
+        if mc == "harmonic":
+            w.models.append(tp.models.Harmonic_FCN(X, U, max_frequenz=int(m.get("maxf", 2)), hidden=tuple(m["hidden"]),
+                                                   min_frequenz=int(m.get("minf", 0)), activations=act))
+        elif mc == "qres":
+            w.models.append(tp.models.QRES(X, U, hidden=tuple(m["hidden"]), activations=act))
+        elif mc == "ritz":
+            w.models.append(tp.models.DeepRitzNet(X, U, width=int(m["hidden"][0]), depth=len(m["hidden"])))
+        elif mc == "poly":
+            w.models.append(tp.models.Polynomial_FCN(X, U, polynomial_degree=2, hidden=tuple(m["hidden"])))
+        else:
+            w.models.append(tp.models.FCN(X, U, hidden=tuple(m["hidden"]), activations=act))
     w.param = None
     if spec.get("param") is not None:
         w.param = tp.models.Parameter(float(spec["param"]), tp.spaces.R1("k"))
@@ -183,6 +194,8 @@ def build_world(spec, init_seed):
         raise ValueError(kind)
 
     w.train = [mk(cs, i) for i, cs in enumerate(spec["conds"])]
+    # the weights the USER configured (the reference loop must not read them back from the condition objects)
+    w.train_w = [float(cs.get("weight", 1.0)) for cs in spec["conds"]]
     w.val = [mk(cs, 100 + i) for i, cs in enumerate(spec.get("val", []))]
     for c in w.val:
         # validation conditions get pre-drawn static samples, so that their presence
@@ -283,8 +296,8 @@ def run_reference(spec, sim_seed, fault):
             sim.begin_op()
             opt.zero_grad()
             loss = torch.zeros(1, requires_grad=True)
-            for c in w.train:
-                loss = loss + c.weight * c(device="cpu", iteration=t)
+            for c, cw in zip(w.train, w.train_w):
+                loss = loss + cw * c(device="cpu", iteration=t)
             loss.backward()
             opt.step()
             if sched is not None and (t + 1) % freq == 0:
